@@ -34,7 +34,7 @@ func toBool(v reflect.Value) bool {
 // with parseBool https://golang.org/pkg/strconv/#ParseBool
 // and is not 0.0
 func tryToBool(v reflect.Value) (bool, error) {
-	if v.Kind() == reflect.Ptr || v.Kind() == reflect.Interface {
+	for v.Kind() == reflect.Ptr || v.Kind() == reflect.Interface {
 		v = v.Elem()
 	}
 	switch v.Kind() {
@@ -79,7 +79,7 @@ func toFloat64(v reflect.Value) float64 {
 // If it cannot (in the case of a non-numeric string, a struct, etc.)
 // it returns 0.0 and an error.
 func tryToFloat64(v reflect.Value) (float64, error) {
-	if v.Kind() == reflect.Ptr || v.Kind() == reflect.Interface {
+	for v.Kind() == reflect.Ptr || v.Kind() == reflect.Interface {
 		v = v.Elem()
 	}
 	switch v.Kind() {
@@ -113,7 +113,7 @@ func toInt64(v reflect.Value) int64 {
 // If it cannot (in the case of a non-numeric string, a struct, etc.)
 // it returns 0 and an error.
 func tryToInt64(v reflect.Value) (int64, error) {
-	if v.Kind() == reflect.Ptr || v.Kind() == reflect.Interface {
+	for v.Kind() == reflect.Ptr || v.Kind() == reflect.Interface {
 		v = v.Elem()
 	}
 	switch v.Kind() {
@@ -156,7 +156,7 @@ func toInt(v reflect.Value) int {
 // If it cannot (in the case of a non-numeric string, a struct, etc.)
 // it returns 0 and an error.
 func tryToInt(v reflect.Value) (int, error) {
-	if v.Kind() == reflect.Ptr || v.Kind() == reflect.Interface {
+	for v.Kind() == reflect.Ptr || v.Kind() == reflect.Interface {
 		v = v.Elem()
 	}
 	switch v.Kind() {
